@@ -19,6 +19,10 @@ PYTYPE = {"bool": bool, "int": int, "float": float, "complex": complex, "str": s
 RANK = {"bool": 0, "int": 1, "float": 2}
 
 
+# in-place component writes are asserted on every written numeric vector entry (finding F-C05-8 fixed); C05_INPLACE_PLAIN_ONLY=1 restores
+# the earlier restriction to entries written in the attribute's own class (bisecting aid)
+INPLACE_ANY_WRITTEN = __import__('os').environ.get('C05_INPLACE_PLAIN_ONLY', '0') != '1'
+
 # ------------------------------------------------------------------ values (JSON-encodable descriptions)
 # a scalar value is described as [kind, payload] with kind in
 #   pybool, npbool, pyint, npint32, npuint8, npint64, npint16, pyfloat, npfloat32, npfloat64, pycomplex, npcomplex, str, none
@@ -39,6 +43,9 @@ def scalar_desc():
         st.tuples(st.just("str"), st.text(alphabet="abcXYZ 0_é", max_size=8)),
         st.tuples(st.just("str"), st.text(alphabet="abcXYZ 0_é", min_size=9, max_size=32)),
         st.tuples(st.just("none"), st.just(0)),
+        # falsy values of every class (a written 0 / False / "" must not read back as a non-falsy default)
+        st.sampled_from([("pybool", False), ("npbool", False), ("pyint", 0), ("npint64", 0), ("pyfloat", 0.0), ("pyfloat", -0.0),
+                         ("npfloat64", 0.0), ("pycomplex", [0.0, 0.0]), ("str", "")]),
     ).map(list)
 
 
@@ -158,11 +165,15 @@ def history(draw):
     nattr = 0
     n = n0
     nsteps = draw(st.integers(1, 40))
-    for _ in range(nsteps):
+    ncreate0 = draw(st.sampled_from([0, 1, 1, 2, 3]))       # most histories start by declaring attributes (else half of them never own one)
+    for step_no in range(nsteps + ncreate0):
         choices = ["create", "append", "iadd_list", "iadd_cont"]
+        if step_no < ncreate0:
+            choices = ["create"]
         if attrs:
-            choices += ["set", "set", "set", "get", "set_oob", "get_oob", "inplace", "inplace_idx", "clear_attr", "as_array",
-                        "delete", "set", "append", "copy_entry", "copy_entry", "set_array", "as_array", "set_twice", "set_twice"]
+            choices += ["set", "set", "set", "get", "set_oob", "get_oob", "inplace", "inplace_idx", "inplace_idx", "clear_attr", "as_array",
+                        "delete", "set", "append", "copy_entry", "copy_entry", "set_array", "as_array", "set_twice", "set_twice",
+                        "fill_all", "set_exotic", "set_exotic"]
         if draw(st.integers(0, 30)) == 0:
             choices = ["clear_container"]
         op = draw(st.sampled_from(choices))
@@ -170,7 +181,7 @@ def history(draw):
             typ = draw(st.sampled_from(TYPES))
             arity = draw(st.sampled_from([1, 1, 2, 3, 4]))
             dflt = None
-            if draw(st.integers(0, 2)) == 0:
+            if draw(st.integers(0, 1)) == 0:
                 # custom defaults as python scalars or numpy scalars of the attribute's own class
                 dflt = draw(scalar_desc().filter(lambda d: type_class(d) == typ and d[0] != "npcomplex"))
             name = f"a{nattr}"; nattr += 1
@@ -198,9 +209,21 @@ def history(draw):
                 if typ in ("int", "float") and arity > 1 and draw(st.booleans()):
                     # first write the entry (half of the time with a vector equal to the default), then update it in place
                     z = ["pyint", 0] if typ == "int" else ["pyfloat", 0.0]
-                    pre = ["list", [list(z) for _ in range(arity)]] if draw(st.booleans()) else \
-                        ["list", [[z[0], draw(st.integers(-9, 9))] if typ == "int" else [z[0], draw(st.integers(-9, 9)) / 2] for _ in range(arity)]]
-                ops.append([op, name, draw(st.integers(0, max(n - 1, 0))), draw(st.integers(0, 3)), draw(st.integers(1, 5)),
+                    how = draw(st.sampled_from(["default", "own", "narrow", "narrow"]))
+                    if how == "default":
+                        pre = ["list", [list(z) for _ in range(arity)]]
+                    elif how == "own":
+                        pre = ["list", [[z[0], draw(st.integers(-9, 9))] if typ == "int" else [z[0], draw(st.integers(-9, 9)) / 2] for _ in range(arity)]]
+                    else:
+                        # the entry is first written with values of a NARROWER class (ints / bools into a float attribute, bools into
+                        # an int attribute); the in-place update then assigns a value of the attribute's own class
+                        nk = draw(st.sampled_from(["pyint", "pybool", "npint64"] if typ == "float" else ["pybool", "npbool"]))
+                        pre = [draw(st.sampled_from(["list", "tuple"])),
+                               [[nk, draw(st.integers(-9, 9)) if "int" in nk else draw(st.booleans())] for _ in range(arity)]]
+                dval = draw(st.integers(1, 5))
+                if typ == "float" and draw(st.booleans()):
+                    dval = dval + draw(st.sampled_from([0.5, 0.25, -0.75]))       # not representable in a narrower class
+                ops.append([op, name, draw(st.integers(0, max(n - 1, 0))), draw(st.integers(0, 3)), dval,
                             draw(value_desc(typ, arity).filter(lambda vd: model_accepts(vd, typ, arity))), pre])
             elif op == "set_twice":
                 # two accepted writes at the same index, the first one given in a narrower class (bool / int) than the second
@@ -223,6 +246,19 @@ def history(draw):
                 ops.append(["set_array", name, draw(st.integers(0, max(n - 1, 0))), draw(st.integers(0, 3)),
                             draw(value_desc(typ, arity).filter(lambda vd: model_accepts(vd, typ, arity) and vd[0] != "scalar"
                                                                and len(set(type_class(c) for c in vd[1])) == 1)) if arity > 1 else None])
+            elif op == "fill_all":
+                # every element written, in a drawn order (highest id first, index 0 last, ...), then exported
+                if n > 0:
+                    order = draw(st.permutations(list(range(n))))
+                    for i3 in order:
+                        ops.append(["set", name, i3, draw(value_desc(typ, arity).filter(lambda vd: model_accepts(vd, typ, arity)))])
+                    ops.append(["as_array", name])
+            elif op == "set_exotic":
+                # numpy arrays of unusual shape / dtype as values: no reference rule is applied, the two storages only have to AGREE
+                # (both accept and then read the same, or both reject)
+                shape = draw(st.sampled_from(["(k,)", "(k,)", "(1,)", "(1,1)", "()", "(k,1)", "(1,k)", "(k+1,)", "(k-1,)"]))
+                dt = draw(st.sampled_from(["own", "own", "own", "int8", "int32", "int64", "uint8", "float32", "float64", "bool", "complex128", "complex64", "U3", "U40", "object"]))
+                ops.append(["set_exotic", name, draw(st.integers(0, max(n - 1, 0))), shape, dt, draw(st.integers(-3, 3)), draw(st.booleans())])
             elif op == "clear_attr":
                 ops.append(["clear_attr", name])
                 if n > 0 and draw(st.booleans()):
@@ -394,8 +430,9 @@ def fn(case, ctx):
                              f"sparse {'accepted' if res[0] else 'rejected'}, dense {'accepted' if res[1] else 'rejected'}, documented rule says {'accept' if acc else 'reject'}") and good
             if acc and res[0] and res[1]:
                 mdl.data[i] = model_value(vd, mdl.typ, mdl.arity)
-                # "plain" entries: every component was given in the attribute's own numeric class (no bool -> int widening),
-                # so both storages hold an array of that class and an in-place component write means the same in both
+                # "plain" entries: every component was given in the attribute's own numeric class (no bool -> int widening).
+                # (Historical: before fix F-C05-8 the sparse storage kept the class of the written values, so an in-place component
+                # write on a non-plain entry truncated there; with INPLACE_ANY_WRITTEN every written numeric entry is asserted.)
                 if not hasattr(mdl, "plain"): mdl.plain = set()
                 if mdl.typ in ("int", "float") and mdl.arity > 1 and vd[0] != "scalar" and all(type_class(c) == mdl.typ for c in vd[1]):
                     mdl.plain.add(i)
@@ -444,6 +481,7 @@ def fn(case, ctx):
                 mdl.data[i] = model_value(pre, mdl.typ, mdl.arity)
                 if not hasattr(mdl, "plain"): mdl.plain = set()
                 mdl.plain.add(i)
+                if any(type_class(c) != mdl.typ for c in pre[1]): ctx.label("inplace-after-narrower-class-write")
                 if mdl.data[i] == list(mdl.default): ctx.label("written-value-equals-default")
             ctx.label("inplace-on-" + ("written" if i in mdl.data else "never-written"))
             for a, which in ((sp, "sparse"), (de, "dense")):
@@ -457,7 +495,7 @@ def fn(case, ctx):
                     pass
             # a WRITTEN vector entry is updatable in place (upstream code relies on `attr[i][k] = x` for entries it has set):
             # both storages must show the component write. (Never-written entries: nothing is promised for entry i itself.)
-            if kind == "inplace_idx" and mdl.arity > 1 and i in mdl.data and i in getattr(mdl, "plain", set()):
+            if kind == "inplace_idx" and mdl.arity > 1 and i in mdl.data and (i in getattr(mdl, "plain", set()) or INPLACE_ANY_WRITTEN):
                 exp = list(mdl.data[i]); exp[k % mdl.arity] = PYTYPE[mdl.typ](d)
                 ctx.label("inplace-write-on-plain-written-entry")
                 for a, which in ((sp, "sparse"), (de, "dense")):
@@ -506,6 +544,57 @@ def fn(case, ctx):
                 if arr.dtype.kind in "ifc":
                     arr[k % mdl.arity] = arr[k % mdl.arity] + 7      # the caller's array changes after the write
             mdl.data[i] = model_value(vd, mdl.typ, mdl.arity)
+        elif kind == "set_exotic":
+            _, name, i, shape, dt, base, as_vec = op
+            if name not in models or n == 0: continue
+            i = i % n
+            mdl = models[name]; sp, de = handles[name]
+            k = mdl.arity
+            shp = {"(k,)": (k,), "(1,)": (1,), "(1,1)": (1, 1), "()": (), "(k,1)": (k, 1), "(1,k)": (1, k), "(k+1,)": (k + 1,), "(k-1,)": (max(k - 1, 0),)}[shape]
+            own = {"bool": "bool", "int": "int64", "float": "float64", "complex": "complex128", "str": "U8"}[mdl.typ]
+            dtn = own if dt == "own" else dt
+            cnt = int(np.prod(shp)) if shp != () else 1
+            try:
+                if dtn.startswith("U") or dtn == "object" and mdl.typ == "str":
+                    flat = np.array([("s%d" % (base + j)) for j in range(cnt)], dtype=dtn)
+                elif dtn == "bool":
+                    flat = np.array([(base + j) % 2 == 0 for j in range(cnt)], dtype=bool)
+                else:
+                    flat = np.array([base + j for j in range(cnt)]).astype(dtn)
+                val = flat.reshape(shp)
+            except Exception:
+                continue
+            ctx.label("exotic-array-value", f"exotic:shape={shape}", f"exotic:dtype={'own' if dt == 'own' else dt}")
+            res, got = [], []
+            for a in (sp, de):
+                try:
+                    a[i] = val.copy()
+                    res.append(True)
+                except Exception:
+                    res.append(False)
+            if not ctx.check(res[0] == res[1], "set:sparse-dense-disagree",
+                             f"{where}: numpy value {val!r} (shape {val.shape}, dtype {val.dtype}) into {mdl.typ} x{mdl.arity}: sparse "
+                             f"{'accepted' if res[0] else 'rejected'} but dense {'accepted' if res[1] else 'rejected'}"):
+                pass
+            if res[0] and res[1]:
+                ctx.label("exotic-array-accepted")
+                ok1, v1 = ctx.call("sparse:get", sp.__getitem__, i); ok2, v2 = ctx.call("dense:get", de.__getitem__, i)
+                if ok1 and ok2:
+                    a1, a2 = np.asarray(v1), np.asarray(v2)
+                    same = a1.shape == a2.shape and ([str(x) for x in a1.ravel()] == [str(x) for x in a2.ravel()] if mdl.typ == "str"
+                                                     else bool(np.all(a1 == a2)))
+                    ctx.check(same, "exotic:sparse-dense-read", f"{where}: after writing {val!r} both storages accepted but sparse reads {v1!r}, dense reads {v2!r}")
+                # a proper arity-k write of the attribute's own class is also held against the model
+                if shp == (k,) and dt == "own" and k > 1:
+                    mdl.data[i] = [PYTYPE[mdl.typ](x) for x in val.tolist()]
+                    continue_ok = True
+                else:
+                    continue_ok = False
+            if not (res[0] and res[1] and shp == (k,) and dt == "own" and k > 1):
+                # re-synchronise the entry with a clean write
+                resync = PYTYPE[mdl.typ]() if mdl.arity == 1 else [PYTYPE[mdl.typ]()] * mdl.arity
+                sp[i] = resync; de[i] = resync; mdl.data[i] = resync
+            if hasattr(mdl, "plain"): mdl.plain.discard(i)
         elif kind == "clear_attr":
             name = op[1]
             if name not in models: continue
@@ -539,5 +628,5 @@ def fn(case, ctx):
     ctx.nontrivial(grown_after_create and read_unwritten)
 
 
-SUBCHECKS = [SubCheck("attribute_history", history(), fn, quick=1200, thorough=4000)]
+SUBCHECKS = [SubCheck("attribute_history", history(), fn, quick=2000, thorough=5000)]
 MATCHERS = {}
